@@ -45,7 +45,7 @@ def nontrivial_key(text):
 
 
 class Case:
-    __slots__ = ("seed", "profile", "build", "text", "impl", "model", "diffs", "verdict", "stats", "error")
+    __slots__ = ("seed", "profile", "build", "text", "impl", "model", "diffs", "verdict", "stats", "error", "wf")
 
 
 def run_one(job):
@@ -62,17 +62,30 @@ def finish_case(c, prop, channels, workdir):
     c.model, em = engine.run_model(c.text)
     if c.impl is None or c.model is None or ei or em:
         c.error = f"impl: {ei} | model: {em}"
-        c.diffs, c.verdict = [], None
+        c.diffs, c.verdict, c.wf = [], None, None
         return c
     c.diffs = engine.compare(c.impl, c.model, channels=channels)
     tag = f"{prop}_{c.build}_{c.seed}_{os.getpid()}_{id(c)}"
-    c.verdict = predicate(c.text, c.impl, [prop], workdir, tag)[prop]
+    pv = predicate(c.text, c.impl, [prop, "WF"], workdir, tag)
+    c.verdict = pv[prop]
+    c.wf = pv["WF"]
     for ext in (".hist", ".trace"):
         try:
             os.remove(os.path.join(workdir, tag + ext))
         except OSError:
             pass
     return c
+
+
+def invalid_history(c, require_wf=True):
+    """a shrinking step must not turn the history into one the harness or the model cannot interpret,
+    nor into one that breaks the library's rules (WellFormed, evaluated by the Lean driver)"""
+    if require_wf and c.wf is not None:
+        return True
+    for l in (c.impl or []) + (c.model or []):
+        if "harness-error" in l or "model-error" in l or " api bad-op" in l:
+            return True
+    return False
 
 
 def rerun_text(text, build, prop, channels, workdir):
@@ -92,6 +105,8 @@ def mechanism_exercised(prop, c):
         return has(" ev inv ")
     if prop == "C09":
         return has(" ev notif ")
+    if prop in ("C07", "C10"):
+        return sum(1 for l in impl if " read " in l and "=ok " in l) >= 2
     if prop == "C11":
         return has(" ev inv ") and has("nec=1")
     return has(" ev inv ")
@@ -138,6 +153,10 @@ def run(chk, spec):
             cases.append(c)
     known = common.load_known()
     pred_fail, corr_fail, errors = [], [], []
+    require_wf = spec.get("require_wf", True)
+    not_wf = [c for c in cases if not c.error and c.wf is not None]
+    if require_wf:
+        cases = [c for c in cases if c.error or c.wf is None]
     dist = {}
     nontriv = set()
     for c in cases:
@@ -183,6 +202,7 @@ def run(chk, spec):
         "profiles": [p for p, _ in spec["profiles"]],
         "builds": builds,
         "corpus_cases": len(corpus),
+        "generated_but_not_wellformed_dropped": len(not_wf) if require_wf else 0,
     })
     chk.assumptions += spec.get("assumptions", [])
     if errors:
@@ -194,7 +214,7 @@ def run(chk, spec):
         first = c.verdict.split(":")[0] if c.verdict else ""
         def still(tx):
             r = rerun_text(tx, c.build, prop, channels, workdir)
-            return (not r.error) and r.verdict is not None and known_match(r) is None
+            return (not r.error) and not invalid_history(r, require_wf) and r.verdict is not None and known_match(r) is None
         small = engine.shrink(c.text, still, max_rounds=3)
         r = rerun_text(small, c.build, prop, channels, workdir)
         p = chk.write_replay("pred", f"# property={prop}\n# build={c.build} seed={c.seed} profile={c.profile}\n# predicate on the implementation's trace: {r.verdict}\n" + small)
@@ -204,7 +224,7 @@ def run(chk, spec):
         d = c.diffs[0]
         def still(tx):
             r = rerun_text(tx, c.build, prop, channels, workdir)
-            return (not r.error) and bool(r.diffs) and r.diffs[0][0] == d[0]
+            return (not r.error) and not invalid_history(r, require_wf) and bool(r.diffs) and r.diffs[0][0] == d[0]
         small = engine.shrink(c.text, still, max_rounds=3)
         r = rerun_text(small, c.build, prop, channels, workdir)
         dd = r.diffs[0] if r.diffs else d
